@@ -1,6 +1,6 @@
 #!/bin/bash
 # dev helper: build harness, show only errors and warnings from /verif code
-cd /verif/harness && cargo build --profile verif "$@" 2>&1 | python3 -c "
+cd /verif/harness && cargo build --profile verif -p vcheck "$@" 2>&1 | python3 -c "
 import sys,re
 txt=sys.stdin.read()
 blocks=re.split(r'\n(?=(?:warning|error)(?:\[|:))',txt)
